@@ -11,8 +11,11 @@ CONSTANTS
   Iters = {1, 2}
   OutPaths = {0, 1, 2}
   MaxSteps = 2
+  SizeClasses <- AllSizes
+  UnitLens <- UnitLensSmall
   Variant = "ok"
 INVARIANT HashInputOk
+INVARIANT HashedLength
 INVARIANT SinglePub
 INVARIANT SigVerifies
 INVARIANT PrivNotWritten
